@@ -276,6 +276,30 @@ Theorem C18_tarjan_correct : forall g edges, g_wf g ->
 Proof. exact tarjan_correct. Qed.
 Print Assumptions C18_tarjan_correct.
 
+(* (group hM) The ORDER inside Out(c) (scc.go:131-149: sort.Ints, then adjacent duplicates removed).
+   (1) In every result of the model, for any successor function and flag, each Out(c) is strictly ascending;
+   (2) sort + adjacent-dedup of any list is strictly ascending with exactly the members of the list;
+   (3) given scc_edges_spec and ascending Out lists, Out(c) EQUALS every strictly ascending list whose members
+   are the other components some edge of c enters: the accepted observation is determined as a list.
+   C18_check_ok_sound, op 3, provides both hypotheses of (3) for an accepted case line. *)
+From MM Require Import Check.C18 Proofs.CheckC18Scc.
+Theorem C18_scc_out_order :
+  (forall out edges g st, tarjan_run out edges g = Some st ->
+     Forall (StronglySorted N.lt) (rev_append (tj_outs st) [])) /\
+  (forall l, StronglySorted N.lt (dedup_adj (Model.Graph.isort l)) /\
+             forall z, In z (dedup_adj (Model.Graph.isort l)) <-> In z l) /\
+  (forall g comps outs, scc_edges_spec g comps outs -> Forall (StronglySorted N.lt) outs ->
+     forall c l, (c < length comps)%nat -> StronglySorted N.lt l ->
+       (forall d, In d l <->
+          (N.to_nat d <> c /\ exists u v, In u (comp_at comps c) /\ In v (comp_at comps (N.to_nat d)) /\ In v (g_out g u))) ->
+       nth c outs [] = l).
+Proof. exact scc_out_order. Qed.
+Print Assumptions C18_scc_out_order.
+Example C18_ex_scc_out_order :
+  (* 0 -> 2, 0 -> 1, 0 -> 2 again, 1 and 2 sinks: Out(component of 0) = [0; 1], ascending, once each *)
+  option_map snd (tarjan [[2; 1; 2]; []; []]%N true) = Some [[]; []; [0; 1]]%N.
+Proof. vm_compute. reflexivity. Qed.
+
 (* ================= comparator soundness: what an accepted case line means ================= *)
 (* (group hI)  The check of this property accepts a case line when check_C18 (Check/C18.v) returns
    code 0 (it never returns the borderline code 1).  The theorems below say what that implies, with no
@@ -318,7 +342,9 @@ Print Assumptions C18_check_ok_sound.
    iff mutually reachable; every edge leads to an equal or smaller component id); hascof = 1 exactly when
    flags <> 0 and then SubnodeComponent has one entry per node, the entry of each node being the index of
    the component containing it; one Out list per component, satisfying scc_edges_spec with SCCEdges (bit
-   1 of flags) and all empty without it. *)
+   1 of flags) and all empty without it; every Out list is strictly ascending (group hM: this is what the
+   list-for-list comparison with the model of Tarjan's algorithm adds), so by C18_scc_out_order Out(c) is
+   THE ascending duplicate-free enumeration of the other components entered. *)
 Theorem C18_check_meaning_traversals : forall rest,
   (marks_case_ok rest <->
      exists h : list (mop * Z), rest = Z.of_nat (length h) :: flat_map enc_mop h /\ h <> [] /\ set_run (fun _ => False) h) /\
@@ -345,7 +371,8 @@ Theorem C18_check_meaning_traversals : forall rest,
        (flags <> 0 -> length cof = length g /\
           forall c v, In v (comp_at compsN c) -> nth (N.to_nat v) cof (-1) = Z.of_nat c) /\
        length outsN = length compsN /\
-       (if Z.testbit flags 1 then scc_edges_spec g compsN outsN else Forall (fun l => l = []) outsN)).
+       (if Z.testbit flags 1 then scc_edges_spec g compsN outsN else Forall (fun l => l = []) outsN) /\
+       Forall (StronglySorted N.lt) outsN).
 Proof. exact case_meaning_traversals. Qed.
 Print Assumptions C18_check_meaning_traversals.
 
